@@ -183,6 +183,11 @@ func (s *SPIFFE) fetchIdentityCertificate(ctx context.Context) (*x509svid.SVID, 
 	if len(workloadcert) == 0 {
 		return nil, errors.New("no certificates received from sentry")
 	}
+	for _, cert := range workloadcert {
+		if cert == nil {
+			return nil, errors.New("nil certificate received from sentry")
+		}
+	}
 
 	spiffeID, err := x509svid.IDFromCert(workloadcert[0])
 	if err != nil {
